@@ -305,7 +305,7 @@ func genPathB(t *rapid.T, label string) string {
 	n := rapid.IntRange(1, 3).Draw(t, label+"-depth")
 	var parts []string
 	for i := 0; i < n; i++ {
-		parts = append(parts, rapid.SampledFrom([]string{"a", "b", "c.txt"}).Draw(t, fmt.Sprintf("%s-c%d", label, i)))
+		parts = append(parts, rapid.SampledFrom([]string{"a", "a", "b", "b", "c.txt", "c.txt", "ab"}).Draw(t, fmt.Sprintf("%s-c%d", label, i)))
 	}
 	sep := rapid.SampledFrom([]string{"/", "/", "/", "//", "/./"}).Draw(t, label+"-sep")
 	return fmt.Sprintf(rapid.SampledFrom(spellings).Draw(t, label+"-spelling"), strings.Join(parts, sep))
@@ -321,7 +321,14 @@ func genProgramB(t *rapid.T) Program {
 		l := fmt.Sprintf("c%d", i)
 		c := Call{Op: rapid.SampledFrom(opsB).Draw(t, l+"-op"), A: genPathB(t, l+"-a")}
 		if isTwoPath(c.Op) {
-			switch rapid.IntRange(0, 5).Draw(t, l+"-rel") {
+			switch rapid.IntRange(0, 6).Draw(t, l+"-rel") {
+			case 6:
+				// a sibling whose name begins with the name of the source (a -> ab): neither the same item nor inside it
+				if a := strings.TrimRight(c.A, "/."); a != "" && !strings.HasSuffix(a, "..") {
+					c.B = a + "b"
+				} else {
+					c.B = genPathB(t, l+"-b")
+				}
 			case 0:
 				c.B = c.A // same
 			case 1:
